@@ -80,10 +80,14 @@ struct SwitchInner {
     repair_cap: u64,
     repair_msgs: u64,
     pub repair_storm: bool,
+    /// rolling hash over (time, sender, receiver, interface, content) of everything routed
+    trace: u64,
 }
 
 pub struct Switch {
     inner: Mutex<SwitchInner>,
+    /// number of validators of the epoch (set by `start_node`), for deterministic repair peers
+    validators: std::sync::atomic::AtomicUsize,
 }
 
 impl Switch {
@@ -103,8 +107,42 @@ impl Switch {
                 repair_cap: 60_000,
                 repair_msgs: 0,
                 repair_storm: false,
+                trace: 0,
             }),
+            validators: std::sync::atomic::AtomicUsize::new(0),
         })
+    }
+
+    /// The node picks the peers of a repair request with the thread RNG and sends to them in
+    /// `HashSet` order, which would make runs irreproducible. The harness network keeps the
+    /// *number* of peers the node intended (up to three distinct ones) but chooses them itself,
+    /// as a pure function of the sender, the request bytes and a per-switch counter.
+    fn repair_peers(&self, me: usize, bytes: &[u8], wanted: usize) -> Vec<SocketAddr> {
+        let n = self.validators.load(std::sync::atomic::Ordering::Relaxed);
+        if n < 2 {
+            return Vec::new();
+        }
+        let c = {
+            let mut g = self.inner.lock().unwrap();
+            g.counter += 1;
+            g.counter
+        };
+        let mut h = 0xcbf2_9ce4_8422_2325u64 ^ (me as u64) ^ (c << 20);
+        for b in bytes {
+            h = (h ^ *b as u64).wrapping_mul(0x100_0000_01b3);
+        }
+        let mut out: Vec<usize> = Vec::new();
+        let mut x = h | 1;
+        while out.len() < wanted.min(n - 1) {
+            x ^= x << 13;
+            x ^= x >> 7;
+            x ^= x << 17;
+            let v = (x % n as u64) as usize;
+            if v != me && !out.contains(&v) {
+                out.push(v);
+            }
+        }
+        out.into_iter().map(|v| addr(Iface::RepairResponder, v)).collect()
     }
 
     pub fn set_policy(&self, policy: Policy) {
@@ -141,6 +179,14 @@ impl Switch {
             }
         }
         let t_ms = g.start.elapsed().as_millis() as u64;
+        {
+            let mut h = g.trace ^ t_ms.wrapping_mul(0x9E37_79B9_7F4A_7C15) ^ ((from as u64) << 8) ^ ((to_v as u64) << 20) ^ ((iface as u64) << 32) ^ ((bytes.len() as u64) << 40);
+            let sample: &[u8] = if iface == Iface::Disseminator { &bytes[..bytes.len().min(96)] } else { &bytes[..] };
+            for b in sample {
+                h = (h ^ *b as u64).wrapping_mul(0x100_0000_01b3);
+            }
+            g.trace = h;
+        }
         if iface == Iface::All2All {
             g.log_consensus.push(LogEntry { t_ms, from, to: to_v, iface, bytes: bytes.clone() });
         }
@@ -167,6 +213,11 @@ impl Switch {
         if let Some(tx) = g.inboxes.get(&to) {
             let _ = tx.send(Arc::new(bytes));
         }
+    }
+
+    /// Hash of the whole routed traffic so far: two runs of the same case must agree on it.
+    pub fn trace_hash(&self) -> u64 {
+        self.inner.lock().unwrap().trace
     }
 
     pub fn take_consensus_log(&self) -> Vec<LogEntry> {
@@ -226,6 +277,11 @@ where
 
     async fn send_to_many(&self, m: &S, addrs: impl IntoIterator<Item = SocketAddr> + Send) -> std::io::Result<()> {
         let bytes = Arc::new(wincode::serialize(m).expect("encode"));
+        let mut addrs: Vec<SocketAddr> = addrs.into_iter().collect();
+        addrs.sort();
+        if let Some((Iface::RepairResponder, _)) = addrs.first().and_then(|a| decode_addr(*a)) {
+            addrs = self.switch.repair_peers(self.me, &bytes, 3);
+        }
         for a in addrs {
             self.switch.route(self.me, a, bytes.clone());
         }
@@ -281,6 +337,7 @@ pub enum Diss {
 
 /// Starts a full node for validator `id` (must run inside the runtime).
 pub fn start_node(switch: &Arc<Switch>, stakes: &[u64], id: usize, diss: Diss) -> SimNode {
+    switch.validators.store(stakes.len(), std::sync::atomic::Ordering::Relaxed);
     let infos = validator_infos(stakes);
     let epoch = EpochInfo::new(infos.clone());
     let ve = Arc::new(ValidatorEpochInfo::new(ValidatorIndex::new(id as u64), epoch));
